@@ -3,6 +3,7 @@
 mod util;
 mod hcobs_fam;
 mod hmem;
+mod asl;
 mod iovw;
 mod nfs;
 mod readn;
@@ -41,6 +42,7 @@ fn main() {
         let obs: util::Obs = match family {
             "win" => win::run(line),
             "iovw" | "geo" => iovw::run(line),
+            "asl" => asl::run(line),
             "nfs" => nfs::run(line),
             "chunk" => stream::run_chunk(line),
             "reader" => stream::run_reader(line),
